@@ -25,7 +25,9 @@ var (
 	wW5 = walker{"W5:Interface", walkW5, canonOpts{noFlags: true, mapMode: true}}
 )
 
-var allWalkers = []walker{wW1, wW2, wW3, wW4, wW5}
+var wW6 = walker{"W6:Object.Parse+Elements", walkW6, canonOpts{}}
+
+var allWalkers = []walker{wW1, wW2, wW3, wW4, wW5, wW6}
 
 // ---- scalar helper shared by the walkers: renders the value queued in it (type typ) ----
 
@@ -519,4 +521,104 @@ func compareWalkers(pj *simdjson.ParsedJson, ws []walker, modelCanon func(o cano
 		}
 	}
 	return nil
+}
+
+// ---- W6: Object.Parse / Elements (reused destination) + Array.Iter ----
+
+func walkW6(pj *simdjson.ParsedJson) ([]byte, error) {
+	var out []byte
+	n := 0
+	var reuse *simdjson.Elements
+	err := pj.ForEach(func(i simdjson.Iter) error {
+		if n > 0 {
+			out = append(out, '\n')
+		}
+		n++
+		var err error
+		out, err = w6Value(out, &i, i.Type(), &reuse, 0)
+		return err
+	})
+	if err != nil {
+		return out, fmt.Errorf("W6: %v", err)
+	}
+	if n == 0 {
+		return out, errors.New("W6: no root element")
+	}
+	return out, nil
+}
+
+func w6Value(out []byte, it *simdjson.Iter, typ simdjson.Type, reuse **simdjson.Elements, depth int) ([]byte, error) {
+	switch typ {
+	case simdjson.TypeArray:
+		arr, err := it.Array(nil)
+		if err != nil {
+			return out, fmt.Errorf("Array(): %v", err)
+		}
+		out = append(out, '[')
+		ai := arr.Iter()
+		first := true
+		for {
+			t := ai.Advance()
+			if t == simdjson.TypeNone {
+				break
+			}
+			if !first {
+				out = append(out, ',')
+			}
+			first = false
+			out, err = w6Value(out, &ai, t, reuse, depth+1)
+			if err != nil {
+				return out, err
+			}
+		}
+		return append(out, ']'), nil
+	case simdjson.TypeObject:
+		obj, err := it.Object(nil)
+		if err != nil {
+			return out, fmt.Errorf("Object(): %v", err)
+		}
+		// every other object is parsed into the destination used by the previous one
+		var dst *simdjson.Elements
+		if depth%2 == 0 {
+			dst = *reuse
+		}
+		els, err := obj.Parse(dst)
+		if err != nil {
+			return out, fmt.Errorf("Object.Parse: %v", err)
+		}
+		// the elements are copied out before recursing, because nested objects reuse the destination
+		elems := append([]simdjson.Element(nil), els.Elements...)
+		for _, e := range elems {
+			lk := els.Lookup(e.Name)
+			if lk == nil || lk.Name != e.Name {
+				return out, fmt.Errorf("Elements.Lookup(%q) does not find a listed member", e.Name)
+			}
+		}
+		if len(els.Index) > len(elems) {
+			return out, fmt.Errorf("Elements.Index holds %d keys for %d members", len(els.Index), len(elems))
+		}
+		if depth%2 == 0 {
+			*reuse = els
+		}
+		out = append(out, '{')
+		for i := range elems {
+			if i > 0 {
+				out = append(out, ',')
+			}
+			out = canonStr(out, []byte(elems[i].Name))
+			out = append(out, '=')
+			e := elems[i].Iter
+			if e.Type() != elems[i].Type {
+				return out, fmt.Errorf("Element %q: Type field %v, iterator type %v", elems[i].Name, elems[i].Type, e.Type())
+			}
+			out, err = w6Value(out, &e, elems[i].Type, reuse, depth+1)
+			if err != nil {
+				return out, err
+			}
+		}
+		return append(out, '}'), nil
+	case simdjson.TypeRoot, simdjson.TypeNone:
+		return out, fmt.Errorf("unexpected %v inside a value", typ)
+	}
+	return scalarCanon(out, it, typ)
 }
